@@ -144,6 +144,7 @@ type funcInfo struct {
 	sigWhy  string
 	ptypes  []string // Coq parameter types (receiver first)
 	rtype   string
+	nres    int // number of results when there are several (loops.go), else 0
 	binders string
 	body    string
 	skip    string // reason when not translated
@@ -152,6 +153,9 @@ type funcInfo struct {
 	// fallback
 	fallback string // text of the snapshot item
 	fbCalls  []string
+	// for loops.go
+	inCode   bool     // Gen/Code has a definition (fresh or fallback)
+	codeVars []string // Section variables of Gen/Code the definition depends on, in section order
 }
 
 type codePkg struct {
@@ -165,6 +169,7 @@ type codePkg struct {
 	funcs   []*funcInfo
 	funcM   map[*types.Func]*funcInfo
 	globals map[string]bool
+	wide    bool // loops.go: rune -> Z, byte -> ascii are inside the fragment
 }
 
 var coqReserved = map[string]bool{}
@@ -207,6 +212,14 @@ func (cp *codePkg) trType(t types.Type) (string, error) {
 			return "bytes", nil
 		case types.Bool, types.UntypedBool:
 			return "bool", nil
+		case types.Int32, types.UntypedRune:
+			if cp.wide {
+				return "Z", nil
+			}
+		case types.Uint8:
+			if cp.wide {
+				return "ascii", nil
+			}
 		}
 		return "", fmt.Errorf("type %s", u.String())
 	case *types.Slice:
@@ -304,12 +317,26 @@ func (cp *codePkg) zero(t types.Type) (string, error) {
 		case types.Int, types.Int64:
 			return "0", nil
 		case types.String:
+			if cp.wide {
+				return "([] : bytes)", nil
+			}
 			return "[]", nil
 		case types.Bool:
 			return "false", nil
+		case types.Int32:
+			if cp.wide {
+				return "0", nil
+			}
+		case types.Uint8:
+			if cp.wide {
+				return "chr 0", nil
+			}
 		}
 	case *types.Slice:
-		if _, err := cp.trType(u); err == nil {
+		if ct, err := cp.trType(u); err == nil {
+			if cp.wide {
+				return "([] : " + ct + ")", nil
+			}
 			return "[]", nil
 		}
 	case *types.Named:
@@ -383,6 +410,7 @@ type fnTr struct {
 	size   int
 	fresh  int
 	asciis map[string]bool
+	ext    func(e ast.Expr) (string, bool, error) // loops.go: further expression forms
 }
 
 func (t *fnTr) errAt(n ast.Node, format string, a ...any) error {
@@ -422,6 +450,14 @@ func (t *fnTr) kind(e ast.Expr) types.BasicKind {
 			return types.String
 		case types.Bool, types.UntypedBool:
 			return types.Bool
+		case types.Int32, types.UntypedRune:
+			if t.cp.wide {
+				return types.Int32
+			}
+		case types.Uint8:
+			if t.cp.wide {
+				return types.Uint8
+			}
 		}
 	}
 	return types.Invalid
@@ -479,8 +515,12 @@ func (t *fnTr) expr(e ast.Expr) (string, error) {
 	// constants (literals, named constants, constant expressions) are folded by go/types
 	if tv, ok := info.Types[e]; ok && tv.Value != nil {
 		switch t.kind(e) {
-		case types.Int:
+		case types.Int, types.Int32:
 			return coqZLit(tv.Value)
+		case types.Uint8:
+			if n, ok := constant.Int64Val(tv.Value); ok && n >= 0 && n < 256 {
+				return fmt.Sprintf("chr %d", n), nil
+			}
 		case types.String:
 			if tv.Value.Kind() == constant.String {
 				return coqBytesLit(constant.StringVal(tv.Value)), nil
@@ -494,6 +534,11 @@ func (t *fnTr) expr(e ast.Expr) (string, error) {
 			}
 		}
 		return "", t.errAt(e, "constant of type %s", types.TypeString(tv.Type, types.RelativeTo(t.cp.pkg)))
+	}
+	if t.ext != nil {
+		if s, ok, err := t.ext(e); ok || err != nil {
+			return s, err
+		}
 	}
 	switch x := e.(type) {
 	case *ast.ParenExpr:
@@ -636,6 +681,10 @@ func (t *fnTr) binary(x *ast.BinaryExpr) (string, error) {
 			r = app("beq", a, b)
 		case types.Bool:
 			r = app("Bool.eqb", a, b)
+		case types.Int32:
+			r = app("Z.eqb", a, b)
+		case types.Uint8:
+			r = app("ceqb", a, b)
 		}
 		if x.Op == token.NEQ {
 			r = app("negb", r)
@@ -647,11 +696,16 @@ func (t *fnTr) binary(x *ast.BinaryExpr) (string, error) {
 		}
 		strict := x.Op == token.LSS || x.Op == token.GTR
 		switch k {
-		case types.Int:
+		case types.Int, types.Int32:
 			if strict {
 				return app("Z.ltb", a, b), nil
 			}
 			return app("Z.leb", a, b), nil
+		case types.Uint8:
+			if strict {
+				return app("N.ltb", app("code", a), app("code", b)), nil
+			}
+			return app("N.leb", app("code", a), app("code", b)), nil
 		case types.String:
 			if strict {
 				return app("str_lt", a, b), nil
@@ -1663,11 +1717,24 @@ func (cp *codePkg) signature(fi *funcInfo) {
 		return
 	}
 	if sig.Results().Len() > 1 {
-		var ts []string
+		var ts, cts []string
+		ok := cp.wide
 		for i := 0; i < sig.Results().Len(); i++ {
 			ts = append(ts, types.TypeString(sig.Results().At(i).Type(), types.RelativeTo(cp.pkg)))
+			ct, err := cp.trType(sig.Results().At(i).Type())
+			if err != nil || sig.Results().At(i).Name() != "" {
+				ok = false
+			}
+			cts = append(cts, ct)
 		}
-		why("results (" + strings.Join(ts, ", ") + ")")
+		if !ok {
+			why("results (" + strings.Join(ts, ", ") + ")")
+			return
+		}
+		// loops.go: several results of the fragment are a tuple
+		fi.rtype = "(" + strings.Join(cts, " * ") + ")"
+		fi.nres = len(cts)
+		fi.sigOK = true
 		return
 	}
 	if sig.Results().At(0).Name() != "" {
@@ -1945,6 +2012,39 @@ func (cp *codePkg) render(snap map[string]*snapItem) (string, int, int) {
 		emit(name)
 	}
 	b.WriteString("End Code.\n\n")
+	// for loops.go: which functions Gen/Code defines, and the Section variables each one is
+	// generalised over (transitively, in section order)
+	varIdx := map[string]int{}
+	for i, v := range varNames {
+		varIdx[v] = i
+	}
+	for _, fi := range cp.funcs {
+		n := nodes[fi.name]
+		if n == nil || n.text == "" {
+			continue
+		}
+		fi.inCode = true
+		seen := map[string]bool{}
+		var vs []string
+		var walk func(name string)
+		walk = func(name string) {
+			if seen[name] {
+				return
+			}
+			seen[name] = true
+			m := nodes[name]
+			if m == nil || m.text == "" {
+				vs = append(vs, name)
+				return
+			}
+			for _, c := range m.calls {
+				walk(c)
+			}
+		}
+		walk(fi.name)
+		sort.Slice(vs, func(i, j int) bool { return varIdx[vs[i]] < varIdx[vs[j]] })
+		fi.codeVars = vs
+	}
 	translated, skipped := 0, 0
 	for _, fi := range cp.funcs {
 		if fi.skip == "" {
@@ -2040,6 +2140,9 @@ func (cp *codePkg) cutCycles() {
 	}
 }
 
+// the packages of this run, for loops.go
+var loadedPkgs []*codePkg
+
 func genCode() {
 	fset := token.NewFileSet()
 	imp := newRepoImporter(fset)
@@ -2070,6 +2173,7 @@ func genCode() {
 		cp.cutCycles()
 		out, tr, sk := cp.render(snap)
 		write(file, out)
+		loadedPkgs = append(loadedPkgs, cp)
 		fmt.Printf("code: %s translated=%d skipped=%d\n", tgt.dir, tr, sk)
 	}
 	// packages of the snapshot that are gone, and files of packages that no longer exist
